@@ -117,6 +117,10 @@ def run(chk, w):
                 chk.ok("C09-CONN", 1)
     chk.floor("command_submit_calls", ntx, 12)
 
+    # ---- ADDR: the stored address a command uses is the board's current one (every node-new notice for a configured board rewrites it)
+    from . import c15
+    c15.upd_rule(chk, P, c15.node_roles(P), "C09-ADDR")
+
     # ---- OPT
     opt_rule(chk, w, S, "C09-OPT")
 
